@@ -1,4 +1,4 @@
-import KoordVerif.Proofs.C01Extra
+import KoordVerif.Proofs.C01ExtHandlers
 /-
 C01 — elastic-quota used/request accounting is exact over any event history.
 
@@ -171,6 +171,77 @@ theorem history_matches_fresh (ops ops' : List Op) (hp : PreAllF init ops) (hp' 
 theorem reset_agrees {s : State} (h : Good s) (hleaf : LeafOK s) (hroot : RootEmpty s) :
     ∀ m q q', get? s m = some q → get? (resetAll s) m = some q' → aggs q' = aggs q :=
   localInv_unique (resetAll_obj s) h.topo.tree (good_localInv h) (good_localInv (resetQuota_good h hleaf hroot))
+
+/-! ### SCHEDULES: interleavings of concurrently running pod handlers on distinct pods
+
+Granularity = the separately locked sections of the Go handlers (`Micro`, Proofs/C01ExtMicro.lean):
+  OnPodAdd    = [cacheAdd (QuotaInfo.lock), req (path locks), setAsg (QuotaInfo.lock), used (path locks)]   (last two: bound pod)
+  OnPodDelete = [req (path locks), used (path locks, if assigned), cacheRemove (QuotaInfo.lock)]
+all inside hierarchyUpdateLock.RLock(), so sections of different handlers interleave freely; ReservePod /
+UnreservePod / MigratePod / UpdateQuota / DeleteQuota / ResetQuota hold the hierarchy WRITE lock and are atomic
+(they run at quiescent points only).  `mstep` runs one section with the very functions `step` is built from.
+Invariant BETWEEN sections (`CI s c`): topology / parameters / unique cache ids; EVERY tree equation
+(childRequest = selfRequest + Σ limited children, request = lend/min rule, used = selfUsed + Σ children, ...);
+selfX(g) = Σ over the cached pods of g of the COUNTED amount of the pod (`c`), all counted amounts >= 0; the pod of
+a handler in flight may be unsettled (counted ≠ what its cache entry says), every other pod is settled.
+All pods settled <=> `Good` (= `LocalInv` + well-formedness). -/
+
+/-- the quiescent invariant is the section invariant with every pod settled -/
+theorem good_iff_sections_settled {s : State} : Good s ↔ ∃ c, CI s c ∧ ∀ m i, Settled s c m i :=
+  ⟨fun h => ⟨cntOf s, CI_of_good h, fun m i => settled_cntOf s m i⟩, fun ⟨_, h, hs⟩ => good_of_CI h hs⟩
+
+/-- ONE section of the handler of pod `i` that is locally admissible (`okStep`: decidable, reads only pod i's own
+cache entries / counted amounts and static data) keeps the section invariant — in particular no clamp fires and
+every tree equation holds again when the path locks are released —, acts on pod i's local view as `lstep` says,
+and is invisible to the local view of every other pod and to the static data. -/
+theorem section_preserves_invariant {s : State} {c : Cnts} {i : Nat} {m : Micro} (h : CI s c)
+    (hok : okStep (stat s) i (localOf s c i) m) :
+    ∃ c', CI (mstep s m) c' ∧ localOf (mstep s m) c' i = lstep (stat s) (localOf s c i) m ∧
+      (∀ j, j ≠ i → localOf (mstep s m) c' j = localOf s c j) ∧ (mstep s m).map statN = s.map statN :=
+  mstep_CI h hok
+
+/-- T6 `delta_commute`: two sections of the handlers of distinct pods — in particular two atomic delta propagations
+(request/request, request/used, used/used) — that are both admissible in a state of the section invariant
+commute: both orders stay inside the invariant and end with the same figures for every group, the same cache
+entries and the same static data. -/
+theorem delta_commute_sections {s : State} {c : Cnts} {i1 i2 : Nat} {m1 m2 : Micro} (h : CI s c) (hne : i1 ≠ i2)
+    (h1 : okStep (stat s) i1 (localOf s c i1) m1) (h2 : okStep (stat s) i2 (localOf s c i2) m2) :
+    (∃ c', CI (mstep (mstep s m1) m2) c') ∧ (∃ c', CI (mstep (mstep s m2) m1) c') ∧
+    (∀ m qa qb, get? (mstep (mstep s m1) m2) m = some qa → get? (mstep (mstep s m2) m1) m = some qb → aggs qa = aggs qb) ∧
+    (∀ m j, entry (mstep (mstep s m1) m2) m j = entry (mstep (mstep s m2) m1) m j) :=
+  delta_commute h hne h1 h2
+
+/-- every configuration reachable by ANY interleaving of safe handlers on distinct pods satisfies the section
+invariant, and every pod without a handler in the pool is settled -/
+theorem interleaving_keeps_invariant {s0 : State} {pool0 : Pool} (hg : Good s0) (hn : (pool0.map (·.1)).Nodup)
+    (hsafe : ∀ th ∈ pool0, Safe (stat s0) th.1 (localOf s0 (cntOf s0) th.1) th.2)
+    {s : State} {pool : Pool} (hs : PSteps (s0, pool0) (s, pool)) :
+    ∃ c, CI s c ∧ ∀ j, j ∉ pool.map (·.1) → ∀ m, Settled s c m j :=
+  interleaving_invariant hg hn hsafe hs
+
+/-- small-step theorem: any interleaving that has run every handler to completion (a quiescent point) ends in a
+state satisfying `LocalInv`, with exactly the figures (and cache entries) of the SEQUENTIAL execution of the
+same handlers one after the other, in the order of the pool — hence of any order. -/
+theorem interleaving_equals_sequential {s0 : State} {pool0 : Pool} (hg : Good s0) (hn : (pool0.map (·.1)).Nodup)
+    (hsafe : ∀ th ∈ pool0, Safe (stat s0) th.1 (localOf s0 (cntOf s0) th.1) th.2)
+    {s : State} {pool : Pool} (hs : PSteps (s0, pool0) (s, pool)) (hq : Quiescent pool) :
+    Good s ∧ LocalInv s ∧
+    (∀ m q q', get? s m = some q → get? (runThreads s0 pool0) m = some q' → aggs q = aggs q') ∧
+    (∀ m j, entry s m j = entry (runThreads s0 pool0) m j) :=
+  interleaving_serializable hg hn hsafe hs hq
+
+/-- OnPodAdd: its sections run one after the other ARE the atomic model step, and under the pod precondition of
+the sequential theorem the plan is safe -/
+theorem onPodAdd_sections {s : State} {n : Nat} {p : PodObj} (hpre : PodPre s n p) :
+    runMicros s (planAdd s n p) = step s (.podAdd n p) ∧
+    Safe (stat s) p.id (localOf s (cntOf s) p.id) (planAdd s n p) :=
+  ⟨run_planAdd s n p, safe_planAdd hpre⟩
+
+/-- OnPodDelete likewise -/
+theorem onPodDelete_sections {s : State} {n : Nat} {p : PodObj} (hg : Good s) (hpre : PodPre s n p) :
+    runMicros s (planDelete s n p) = step s (.podDelete n p) ∧
+    Safe (stat s) p.id (localOf s (cntOf s) p.id) (planDelete s n p) :=
+  ⟨run_planDelete s n p, safe_planDelete hg hpre⟩
 
 /-! ### dimension-wise decomposition -/
 
